@@ -570,8 +570,15 @@ fn drive_connection(
                 return false;
             }
             Ok(_) => continue,
-            Err(ref e) if would_block(e) => return false,
-            Err(ref e) if interrupted(e) => return drive_connection(conn, wbuf, msgs),
+            Err(ref e) if would_block(e) => {
+                // Nothing was written, so put the buffer back: it has to be the next thing we send to this client.
+                wbuf.replace(buf);
+                return false;
+            }
+            Err(ref e) if interrupted(e) => {
+                wbuf.replace(buf);
+                return drive_connection(conn, wbuf, msgs);
+            }
             Err(e) => {
                 error!(?conn, error = %e, "write failed");
                 return true;
